@@ -50,59 +50,78 @@ READY = True
 ORACLE = "c11"
 HARNESS_BIN = "c11"
 NCASES = {"quick": 2600, "thorough": 60000}
-CASE_TIMEOUT = {"quick": 40, "thorough": 300}
+CASE_TIMEOUT = {"quick": 120, "thorough": 300}
 MODES = ["Zero", "Away", "Up", "Down", "HalfEven", "HalfAway"]
 BASES = [2, 2, 3, 10, 10, 16, 36]
 # the checker relies on CoqInterval: exactly the four standard-library axioms of the classical reals
 EXTRA_AXIOMS = ()
 
-LEVEL_TEXT = ("Coq theorems (coq/props/C11.v, 33 pinned): (1) soundness of the certified checkers check_exp / check_expm1 / check_ln / "
+LEVEL_TEXT = ("Coq theorems (coq/props/C11.v, 55 pinned). (1) Soundness of the certified checkers check_exp / check_expm1 / check_ln / "
               "check_ln1p / check_powi / check_powf for ALL inputs and all working precisions, Newton schedules and exponent guesses: a "
               "verdict VAccept proves r = t or B^E <= |t| and |r - t| < B^(E-p+1) for the true real value t (exp x, exp x - 1, ln x, "
               "ln(1+x), x^n, x^y as real numbers) and r = t if the answer was flagged Exact; VReject proves |t| < B^(E+1) and "
-              "|r - t| >= B^(E-p+1) (or an untruthful Exact); the two are exclusive. Built on CoqInterval (I.exp_correct, "
-              "I.power_int_correct, interval arithmetic), exp/ln facts of the standard library (1 + x <= exp x, monotonicity for the "
-              "logarithm bracket exp a <= x <= exp b, second-order bounds that keep the enclosure strictly away from x) and exact "
-              "integer decisions where the true value is a float. (2) Entry logic of the six functions (as-is model of the checks and "
-              "shortcuts of exp.rs / log.rs): unlimited precision panics (powi: iff the exponent is negative), every value returned "
-              "Exact (exp 0, exp_m1 0, ln 1, ln_1p 0, x^0, exact powers at unlimited precision, 0^y, x^1 = repr_round x) is the true "
-              "value, ln / ln_1p panic exactly outside the domain, powf panics for negative bases. (3) For the open finding in the "
-              "directed modes: soundness of the as-is accuracy check (less than 2 ulps of the result) and four machine-checked "
-              "refutations of the one-ulp claim for answers the implementation returns. Every implementation answer of the "
-              "correspondence run is decided by the extracted checker.")
-LEVEL_NOTE = ("PARTIAL: that the heuristic guard digits of the series code suffice for ALL precisions and arguments is NOT proved (the "
-              "series / powering code is not modelled: its stop criterion goes through f32 log2 estimates); accuracy is decided per "
-              "generated instance by the certified checker; undecided instances (results exactly one ulp from an exactly representable "
-              "x^y with fractional y, where no enclosure can decide) are counted and reported, never passed. In the directed modes "
-              "errors between 1 and 2 ulps are the open finding directed_faithful, so a regression inside that band is not visible "
-              "there (it is in the two nearest modes). Trusted: Coq kernel, CoqInterval/Flocq/Coquelicot, extraction (+FastZ.v, + one "
-              "stub for sig_forall_dec), zarith, harness. The OCaml driver only chooses working precisions (it cannot turn a wrong "
-              "answer into an accepted one).")
-TECHNIQUE = "Coq proof (certified interval checker on CoqInterval, entry-logic model) + per-instance decision of every implementation answer"
+              "|r - t| >= B^(E-p+1) (or an untruthful Exact); the two are exclusive (CoqInterval + stdlib exp/ln facts + exact integer "
+              "decisions). (2) Value-level AS-IS MODELS of the whole computation (Float/ElemAsis.v: Context::powi incl. the inverse "
+              "path, exp_internal with argument reduction, Maclaurin series, sub_ulp stop criterion and repeated powering, ln_internal "
+              "with scaling, atanh series and recombination, iacoth / ln2 / ln10 / ln_base, exp_m1, ln_1p, powf; every intermediate "
+              "operation is the C03 model of the float layer; the guard-digit and working-precision formulas and the Reverse mode table "
+              "are REGENERATED from exp.rs / log.rs / round.rs on every run). (3) For Context::powi in the two nearest modes, EVERY base, "
+              "precision p >= 4 (or base >= 5) and EVERY integer exponent, every operand of at most 2p digits: the as-is result is "
+              "within one ulp (in the binade of the true value) of x^n and is flagged Exact only if exact "
+              "(C11_powi_asis_nearest_every_exponent; positive exponents already for base >= 3 or p >= 4, negative ones for p >= 2 or "
+              "base >= 5): relative error (1 +- u)^(2n-3) of the left-to-right powering, the guard condition "
+              "(2n-3)(2B^p+1) <= 2B^(wp-1) proved for the regenerated formula bit_len n + bit_len p, the binade-crossing case of the "
+              "last rounding, the rounded inverse. In EVERY mode a powi result flagged Exact is x^n exactly. (4) The as-is models refine "
+              "the entry logic (unlimited precision panics - powi iff the exponent is negative -, domain panics, Exact shortcuts return "
+              "the true value) and flag nothing Exact outside the shortcuts (exp / ln: never; powf: only 1^y = 1), for every f32 "
+              "estimate layer. (5) Termination: FBig::sub_ulp is positive and at least |sum| B^-(2P+2) for every digit estimate; loops "
+              "of the shape of the three series loops whose operations ROUND (relative error <= 1/16) stop within "
+              "series_fuel B P ~ (2P+2) log2 B + 6 iterations. (6) Open finding in the directed modes: soundness of the as-is accuracy "
+              "check (< 2 ulps) and four machine-checked refutations. Every implementation answer of the run is decided by the extracted "
+              "checker AND compared bit for bit with the extracted as-is model.")
+LEVEL_NOTE = ("PARTIAL: for exp, exp_m1, ln, ln_1p, powf that the heuristic guard digits suffice for ALL precisions and arguments is NOT "
+              "proved (their series code is now modelled faithfully and compared bit for bit, but the accuracy of each answer is still "
+              "decided per generated instance by the certified checker); for powi the one-ulp theorem leaves out base 2 with p <= 3 "
+              "(base 3, 4 with p = 1 for negative exponents) - exhaustive small searches found no violation there - and operands longer "
+              "than 2p digits. Termination is proved for loops with abstract rounding operations; that the Z-level loops of ElemAsis.v are "
+              "instances (rounding contract of FBig addition for operands of p+1 digits) is not (C11_series_fuel_partial). Undecided "
+              "instances (results exactly one ulp from an exactly representable x^y with fractional y) are counted and reported, never "
+              "passed. In the directed modes errors between 1 and 2 ulps are the open finding directed_faithful. The f32 estimate layer "
+              "(libm log2f, IEEE single arithmetic) is abstract in Coq (theorems hold for every instance) and instantiated in the OCaml "
+              "driver (std feature variant; a wrong instance can only lower the fidelity statistic, never change a verdict). Trusted: Coq "
+              "kernel, CoqInterval/Flocq/Coquelicot, extraction (+FastZ.v, + one stub for sig_forall_dec), zarith, harness.")
+TECHNIQUE = ("Coq proof (certified interval checker on CoqInterval; value-level as-is models with regenerated guard-digit formulas; "
+             "error analysis of powi; termination of rounded series loops) + per-instance decision of every implementation answer + "
+             "bit-for-bit correspondence of the as-is models")
 RULE = ("cases = op {exp, exp_m1, ln, ln_1p, powi, powf; Context and FBig forms} x base {2,3,10,16,36} x six modes x precision "
         "{1,2,3,4,5,7,10,16,17,20,33,53,64,100,200,300 (1000, 3000 thorough)} x argument classes: zero, tiny (B^-1000 .. B^-(p+2)), "
         "next to 0 (|x| ~ B^-(p-1..p+1)), next to 1 (1 +- B^-j, j = 1..2p, for ln/powi/powf bases; -1 + B^-j for ln_1p), moderate, "
         "powers of two +- 1 (ln scaling), huge (B^1000, exponents to 10^6, exp arguments up to the exponent-overflow limit), "
-        "significands of 1, p-1, p, 2p digits; integer exponents {0, 1, 2, 3, small, 2^k +- 1, 10^3..10^9} of both signs; powf exponents "
-        "{0, 1, integers, 1/2-like, negative, tiny, large}; outside the domain: ln x<=0, ln_1p x<=-1, negative powf base, precision 0, "
-        "infinite operands. non-trivial = the series/powering code ran (entry model says ECompute) or the operand was rounded; counted "
-        "by the oracle over distinct case texts.")
+        "significands of 1, p-1, p, 2p digits; integer exponents {0, 1, 2, 3, small, 2^k +- 1, 10^3..10^9} of both signs and "
+        "exponents of 40..200 bits (random, 2^k, 2^k +- 1) on arguments 1 +- r B^-j (sparse and dense r) with |n ln x| in 2^-12..2^38; "
+        "powf exponents {0, 1, integers, 1/2-like, negative, tiny, large}; outside the domain: ln x<=0, ln_1p x<=-1, negative powf "
+        "base, precision 0, infinite operands. non-trivial = the series/powering code ran (entry model says ECompute) or the operand "
+        "was rounded; counted by the oracle over distinct case texts. asis = the extracted as-is model returned the same significand, "
+        "exponent and flag (evaluated under a 2 s budget per case, precision < 1500).")
 EXPLANATION = ("Verdict per case: the extracted Coq checker (ElemEncl.check_*) encloses the true value t with CoqInterval at a working "
                "precision chosen by the driver and accepts only if it proves B^E <= |t| and |r - t| < B^(E-p+1) (and r = t for a "
                "result flagged Exact); it rejects only if it proves |t| < B^(E+1) and |r - t| >= B^(E-p+1). Anything else is "
                "retried at higher precision and finally reported as undecided. Panics and Exact shortcuts are predicted by the "
-               "entry-logic model ElemEntry.*_entry.")
+               "entry-logic model ElemEntry.*_entry; every computed answer is also compared with the extracted value-level as-is model "
+               "ElemAsis.{powi_asis, exp_internal, ln_internal, powf_asis} (model fidelity, must be 100 %).")
 TRUSTED_BASE = [
     "Coq 8.16.1 kernel; axioms: the four standard-library axioms of the classical real numbers (ClassicalDedekindReals.sig_forall_dec, sig_not_dec, functional_extensionality_dep, Classical_Prop.classic) as used by CoqInterval/Coquelicot/Flocq",
     "libraries: Coq stdlib Reals, Flocq, Coquelicot, CoqInterval (Float.Specific_stdz, Interval.Float_full: I.exp_correct, I.ln_correct, I.power_int_correct, I.mul/div/add/sub_correct)",
     "extraction: ExtrOcamlBasic + ExtrOcamlZBigInt + coq/extract/FastZ.v directives + `Extract Constant ClassicalDedekindReals.sig_forall_dec => (fun _ -> assert false)` in coq/extract/Extract_c11.v (never called by the Z-only enclosure code); zarith 1.12",
-    "oracle/driver_c11.ml chooses working precisions and Newton schedules only; harness/src/bin/c11.rs and hlib (values moved through raw words)",
-    "IBig arithmetic below the float layer behaves as Z (C01, C02); Context::repr_round as modelled for C03",
+    "oracle/driver_c11.ml chooses working precisions and Newton schedules only, and instantiates the abstract f32 operations of Float/ElemF32.v with IEEE single arithmetic (double operations rounded to single; log2 = double log2 rounded to single, which differs from libm's log2f by one ulp on about 1300 of the 2^24 integer arguments): used by the fidelity comparison only; harness/src/bin/c11.rs and hlib (values moved through raw words)",
+    "tools/translate_c11_r3.py: reads the guard-digit / working-precision formulas of float/src/exp.rs, float/src/log.rs and the `type Reverse` table of float/src/round.rs into coq/gen/ElemParams.v at plug-in import (typed expression grammar: + - * / << as, .log2_est() .bit_len() .max(); reading of `x as usize` as f_to_usize, `.log2_est()` of an unsigned primitive as f32::log2 of the converted value)",
+    "IBig arithmetic below the float layer behaves as Z (C01, C02); the float layer as modelled for C03 (repr_round, mul, sqr, repr_div, the four addition bodies); comparisons of floats as order of values (C05)",
 ]
 ASSUMPTIONS = [
     "ulp_p(t) = B^(floor(log_B |t|) - p + 1) for the TRUE value t; 'within 1 ulp' is the strict inequality |r - t| < ulp_p(t)",
     "0^y for y < 0 and negative bases of powf are outside the mathematical domain of the property (any documented panic accepted)",
     "arguments whose result exponent exceeds the isize range (beyond the overflow limit) are not generated",
+    "the as-is estimate layer follows the `std` feature variant of dashu-base (what the harness builds) on 64-bit words",
 ]
 
 
